@@ -106,8 +106,13 @@ def gen_cases(rng, tier):
             recs.append({"vals": vals, "meta": meta,
                          "shape": r.choice(["normal", "normal", "extra", "unversioned", "name-only", "name-bytes"]),
                          "extra": r.randint(1, 3), "version": r.choice([1, 1, 1, 2, 255])})
-        cases.append({"kind": "ref2impl", "desc": ds, "records": recs, "seed": r.below(2 ** 32),
-                      "minimal": r.chance(25), "rehdr": r.chance(15)})
+        case = {"kind": "ref2impl", "desc": ds, "records": recs, "seed": r.below(2 ** 32),
+                "minimal": r.chance(25), "rehdr": r.chance(15)}
+        if r.chance(12):
+            # a descriptor that lists one (type, name) pair twice - what `desc.extend([...])` with an already present
+            # field produced in earlier releases: the frame (and the identifier) carry the duplicate, records one value
+            case["dup"] = r.below(nf)
+        cases.append(case)
     for fn in sorted(os.listdir(GOLDEN)) if os.path.isdir(GOLDEN) else []:
         if fn.endswith(".json"):
             cases.append({"kind": "golden", "file": fn[:-5]})
@@ -150,11 +155,20 @@ def spec_to_pv(v):
     raise ValueError(k)
 
 
+def _frame_fields(case):
+    """the field list as the descriptor frame carries it (with the duplicated pair, if any)"""
+    fields = list(case["desc"][1])
+    if case.get("dup") is not None:
+        fields = fields + [fields[case["dup"]]]
+    return fields
+
+
 def build_ref_stream(case):
     rng = Rng(case["seed"])
     choose = (lambda n: 0) if case.get("minimal") else (lambda n: rng.below(n))
     enc = RC.Enc(choose)
     name, fields = case["desc"]
+    fields = _frame_fields(case)
     out = RC.header(enc) + RC.frame(enc.descriptor(name, fields))
     for i, rec in enumerate(case["records"]):
         if case.get("rehdr") and i == 1:
@@ -312,10 +326,10 @@ def run_real(case):
         if k == "ref2impl":
             data = build_ref_stream(case)
             got, err = _read(data)
-            name, fields = case["desc"]
+            name, fields = case["desc"][0], _frame_fields(case)
             want = []
             for rec in case["records"]:
-                spec = ["rec", case["desc"], rec["vals"], rec["meta"]]
+                spec = ["rec", [name, fields], rec["vals"], rec["meta"]]
                 want.append(V.observe(V.build(spec)))
             hashes = [[V.enc_str(name), [[V.enc_str(t), V.enc_str(n)] for t, n in fields], RC.ident_hash(name, fields)]]
             return {"stream": data.hex(), "error": err, "got": [V.observe(r) for r in got], "want": want,
@@ -387,7 +401,7 @@ def compare(case, obs, mo):
         # the frame-level model keeps what the stream holds, so the version slot is normalised before comparing
         for rec in got:
             if isinstance(rec, list) and rec and rec[0] == "R":
-                nslots = len(rec[1][1]) + 4
+                nslots = len({f[1] for f in rec[1][1]}) + 4      # a field name listed twice is one slot
                 if len(rec[2]) == nslots - 1:
                     rec[2].append(["I", "1"])
                 elif len(rec[2]) == nslots and rec[2][-1][0] == "I":
